@@ -455,6 +455,26 @@ def c17_streams(rng, tier, budget):
     for s in ["http://h:", "http://h:+1", "http://h:1_0", "http://h: 80", "http://h:٣", "http://h:abc", "http://h:0x50", "http://h:080", "http://h:80:80", "//h:0", "http://[::1]:"]:
         st.obs_all(st.new(s), C17_OBS)
     yield "port-matrix", st
+    # URLs DERIVED from one with a written port (origin, with_host, with_user, /, join, pickle, parent …) are parsed lazily: the
+    # port observables are read in both orders (port first / port last), because a value cached by one accessor can mask or
+    # poison another
+    st2 = Stream()
+    rev = list(reversed(C17_OBS))
+    for sc in ("http", "https", "ftp", "x"):
+        for p in (0, 1, 80, 443, 21, 8080, 65535):
+            for hst in ("h", "[::1]"):
+                base = st2.new(f"{sc}://u:pw@{hst}:{p}/a/b?q#f")
+                derived = [st2.mod(base, "origin"), st2.mod(base, "with_host", enc("other.example")), st2.mod(base, "with_user", enc("n")), st2.mod(base, "with_password", "~"),
+                           st2.mod(base, "truediv", enc("c")), st2.mod(base, "parent"), st2.mod(base, "with_path", enc("/z"), "F", "F", "F"), st2.mod(base, "with_query", "S" + enc("k=v")),
+                           st2.mod(base, "with_fragment", "~"), st2.mod(base, "with_scheme", enc("http" if sc != "http" else "https")), st2.join(base, st2.new("../x")), st2.pkl(base),
+                           st2.mod(st2.new(f"{sc}://{hst}/p"), "with_port", str(p)), st2.build(scheme=sc, host=hst.strip("[]"), port=p)]
+                for i, d in enumerate(derived):
+                    st2.obs_all(d, C17_OBS if (i + p) % 2 == 0 else rev)
+                # the same derivations again (shared objects through the constructor caches), read in the opposite order
+                again = [st2.mod(base, "origin"), st2.mod(base, "truediv", enc("c")), st2.mod(base, "with_user", enc("n"))]
+                for i, d in enumerate(again):
+                    st2.obs_all(d, rev if (i + p) % 2 == 0 else C17_OBS)
+    yield "derived-both-orders", st2
     yield "random", general_stream(rng, int((80 if tier == "quick" else 1500) * budget), C17_OBS, mods=["with_port", "with_scheme", "with_host", "origin"], with_join=False)
 
 
@@ -621,6 +641,19 @@ def c19_streams(rng, tier, budget):
         h2 = st.new(s, encoded=True)
         st.obs_all(h2, C19_OBS)
     yield "edge-strings", st
+    # every authority shape through build(authority=…): well-formed, text before / after a bracket, nested and unbalanced
+    # brackets, IPvFuture with and without ':', userinfo with brackets, odd ports — the result must print or be rejected
+    st3 = Stream()
+    auths = ["h", "u:p@h:80", "[::1]:8080", "[v1.a:b]", "[v1.a]:80", "x[a:b]:8080", "user:pw@x[v1.a:b]:9", "-[fe80:zz]:1", "[a:b]x:80", "[::1]x", "x[::1]", "[[::1]]", "[::1", "::1]",
+             "u@[::1]", "u:[p]@h", "[a]:b@h", "h:0", "h:", ":80", "@", "u@", "[]", "[]:1", "[fe80::1%25eth0]:1", "[fe80::1%é]", "bücher.example:8080", "a[b", "a]b", "[a:b", "a:b]"]
+    for a in auths:
+        for sc in ("http", "x", ""):
+            hb = st3.build(scheme=sc, authority=a)
+            st3.obs_all(hb, ["str", "val", "raw_host", "explicit_port", "host_port_subcomponent", "human_repr"])
+            st3.obs_all(st3.mod(hb, "with_fragment", enc("f")), ["str"])
+            st3.obs_all(st3.mod(hb, "truediv", enc("p")), ["str"])
+            st3.obs_all(st3.pkl(hb), ["str", "raw_host"])
+    yield "build-authority-matrix", st3
     yield "random", general_stream(rng, int((150 if tier == "quick" else 3000) * budget), C19_OBS, enc_frac=0.15)
 
 
